@@ -193,6 +193,16 @@ func (w *Worker) modelWith(extra *term.Term) (map[string]uint64, []string, bool)
 	}
 	refs := make([]string, len(w.vars))
 	order := make([]string, len(w.vars))
+	var decl strings.Builder
+	for _, v := range w.vars {
+		w.TF.Emit(&decl, v) // variables not yet mentioned in any assertion still need a declaration
+	}
+	if decl.Len() > 0 {
+		w.S.Send(decl.String())
+		if w.S.Check() != solver.Sat {
+			return nil, nil, false
+		}
+	}
 	for i, v := range w.vars {
 		refs[i] = "|" + v.Name + "|"
 		order[i] = v.Name
@@ -406,6 +416,8 @@ func (w *Worker) reportViolation(kind, msg, pos string, negCond *term.Term, know
 		m, order, ok := w.modelWith(negCond)
 		if ok {
 			v.Model, v.Order = m, order
+		} else {
+			v.Extra = map[string]string{"model_error": w.S.LastError}
 		}
 	} else {
 		v.Model = w.P.Replay
